@@ -7,6 +7,7 @@ borrowing the same idea of using visitors and treating the schema as graph.
 """
 
 from typing import (
+    Any,
     Dict,
     Iterator,
     List,
@@ -40,7 +41,7 @@ from ..schema import (
     UnionType,
 )
 from ..schema.schema import _build_type_map
-from ..utilities import coerce_argument_values
+from ..utilities import coerce_argument_values, value_from_ast
 
 
 __all__ = ("SchemaDirective", "apply_schema_directives")
@@ -149,11 +150,56 @@ def apply_schema_directives(
         Modified schema.
 
     """
-    return _SchemaDirectivesApplicationVisitor(
+    before = {
+        id(element.node): value
+        for element, value in _literal_defaults(schema)
+    }
+    schema = _SchemaDirectivesApplicationVisitor(
         schema_directives,
         schema.directives,
         None if within is None else _directive_nodes(within),
     ).on_schema(schema)
+    # A directive may have given an enum new values or implemented a scalar:
+    # the default values written in the document denote values of the types as
+    # they are now. They are evaluated again, unless a directive changed them.
+    for element, value in _literal_defaults(schema):
+        node_id = id(element.node)
+        if node_id in before and before[node_id] != value:
+            try:
+                if element.default_value == before[node_id]:
+                    element.default_value = value
+            except Exception:  # comparison of arbitrary Python values
+                pass
+    return schema
+
+
+def _literal_defaults(schema: Schema) -> Iterator[Tuple[Any, Any]]:
+    """
+    Arguments and input fields written in SDL with a default value, along with
+    the value of that literal in their (current) type.
+    """
+    elements = []  # type: List[Any]
+    for type_ in schema.types.values():
+        if isinstance(type_, (ObjectType, InterfaceType)):
+            for field in type_.fields:
+                elements.extend(field.arguments)
+        elif isinstance(type_, InputObjectType):
+            elements.extend(type_.fields)
+    for directive in schema.directives.values():
+        elements.extend(directive.arguments)
+
+    for element in elements:
+        node = getattr(element, "node", None)
+        if (
+            node is None
+            or node.default_value is None
+            or not element.has_default_value
+        ):
+            continue
+        try:
+            yield element, value_from_ast(node.default_value, element.type)
+        except Exception:  # the literal does not fit the type (any more)
+            continue
 
 
 class _SchemaDirectivesApplicationVisitor(SchemaVisitor):
